@@ -1,7 +1,8 @@
 (* C01 - APE values equal the definition, pose by pose. Proofs in Evo.MetricsProofs. *)
 From Coq Require Import Reals List.
-From Evo Require Import Num Linalg LinalgR Lie LieProofs Metrics MetricsProofs.
+From Evo Require Import Num Linalg LinalgR Lie LieProofs Metrics MetricsProofs NpDsl MetricsTie.
 From EvoGen Require StepsC01.
+From EvoGen Require Import LieGen MetricsGen.
 Import ListNotations.
 Local Open Scope R_scope.
 
@@ -61,6 +62,15 @@ Print Assumptions C01_unchanged_when_swapped.
    common.downsample_or_filter as re-extracted from the CURRENT source (EvoGen.StepsC01, regenerated on every
    run) are the documented order: filter/downsample -> crop reference -> associate -> align (est onto ref,
    correct_scale, only_scale, n) -> origin -> project ref, est -> APE(ref, est) -> unit -> result. *)
+(* ---- translator tie: EvoGen.MetricsGen is re-translated from evo/core/metrics.py on every run ---- *)
+(* the value APE.process_data computes for one reference/estimate pair (error quantity + per-relation reduction, as
+   translated from the source) is the model's ape_pair, for every number system and every angle oracle *)
+Theorem C01_translated_source_is_the_model : forall (T : Type) (ops : NumOps T) (angle_of : M3 T -> T) (rad2deg : T -> T)
+  (rel : PoseRelation) (ref est : Pose T),
+  ape_pair_gen angle_of rad2deg rel ref est = ape_pair angle_of rad2deg rel ref est.
+Proof. exact (@ape_pair_gen_is_model). Qed.
+Print Assumptions C01_translated_source_is_the_model.
+
 From Coq Require Import String.
 Local Open Scope string_scope.
 Theorem C01_step_order_main_ape_ape : StepsC01.main_ape_ape =
